@@ -81,12 +81,30 @@ type directState struct {
 
 func (e *engine) Exec(ops []string) []string {
 	disk := false
+	var maxMsg uint64
+	pad := 0
 	for _, op := range ops {
 		if strings.HasPrefix(op, "c.restart") {
 			disk = true
 		}
+		if f := strings.Fields(op); len(f) > 0 && f[0] == "c.cfg" { // c.cfg maxmsg=<bytes> pad=<bytes>
+			for _, kv := range f[1:] {
+				if v, ok := strings.CutPrefix(kv, "maxmsg="); ok {
+					maxMsg = uint64(atoi(v))
+				}
+				if v, ok := strings.CutPrefix(kv, "pad="); ok {
+					pad = atoi(v)
+				}
+			}
+		}
 	}
-	k := newKit(disk)
+	if maxMsg != 0 && maxMsg < 64 {
+		maxMsg = 64
+	}
+	if pad < 0 || pad > 4096 {
+		pad = 0
+	}
+	k := newKit(disk, maxMsg, pad)
 	os.WriteFile(tracePath, nil, 0o644)
 	ds := &directState{waiters: map[[2]int]*store.VerifProposalWaiter{}}
 	out := make([]string, len(ops))
@@ -247,7 +265,8 @@ func (e *engine) exec1(k *kit, ds *directState, f []string) (res string) {
 		if !validRegion(r) || !validStore(st) {
 			return "bad-op"
 		}
-		_ = k.peers[peerID(r, st)].Campaign()
+		p := k.peers[peerID(r, st)]
+		k.runOn(st, func() { _ = p.Campaign() })
 		k.collect()
 		return "ok"
 	case "c.tick":
@@ -255,7 +274,8 @@ func (e *engine) exec1(k *kit, ds *directState, f []string) (res string) {
 		if !validRegion(r) || !validStore(st) {
 			return "bad-op"
 		}
-		_ = k.peers[peerID(r, st)].Tick()
+		p := k.peers[peerID(r, st)]
+		k.runOn(st, func() { _ = p.Tick() })
 		k.collect()
 		return "ok"
 	case "c.pump":
@@ -325,7 +345,11 @@ func (e *engine) exec1(k *kit, ds *directState, f []string) (res string) {
 			return "bad-op"
 		}
 		k.net.mu.Lock()
-		k.net.hold[a][b] = true
+		if len(f) > 3 && f[3] == "app" { // only log replication is delayed
+			k.net.holdApp[a][b] = true
+		} else {
+			k.net.hold[a][b] = true
+		}
 		k.net.mu.Unlock()
 		return "ok"
 	case "c.release":
@@ -345,6 +369,33 @@ func (e *engine) exec1(k *kit, ds *directState, f []string) (res string) {
 		if l := k.connectedLeader(r); l != 0 {
 			k.start("propose", l, r, len(k.calls)+1)
 		}
+		return "ok"
+	case "c.replicaread": // c.replicaread store region : ReadIndex + WaitApplied + local read on any replica
+		r := uint64(arg(f, 2))
+		if !validStore(s) || !validRegion(r) {
+			return "bad-op"
+		}
+		k.replicaRead(s, r)
+		return "ok"
+	case "c.cfg": // read before the cluster is built (see Exec)
+		return "ok"
+	case "c.gate": // c.gate store : the store's state machine applies one write per c.step from now on
+		if !validStore(s) {
+			return "bad-op"
+		}
+		k.setGate(s)
+		return "ok"
+	case "c.step":
+		if !validStore(s) {
+			return "bad-op"
+		}
+		k.stepGate(s)
+		return "ok"
+	case "c.open":
+		if !validStore(s) {
+			return "bad-op"
+		}
+		k.openGate(s)
 		return "ok"
 	case "c.wait": // let every outstanding read run into its answer (ReadCommand gives up after 3 s)
 		for _, c := range k.calls {
